@@ -8,7 +8,7 @@
    - [literal_roundtrip], [ident_roundtrip]: the two byte-level codecs;
    - refuted witnesses for every defect switch. *)
 From Coq Require Import List String Ascii Bool Arith NArith Lia.
-From GV Require Import Spec.RefGrammar Model.Expr Model.ExprParse Proofs.ExprParseP Model.ExprPrint.
+From GV Require Import Spec.RefGrammar Model.Expr Model.ExprParse Proofs.ExprParseP Proofs.ExprParseExtP Model.ExprPrint.
 Import ListNotations.
 Local Open Scope string_scope.
 Local Open Scope list_scope.
@@ -81,76 +81,99 @@ Proof.
 Qed.
 
 (* ------------------------------------------------------------------------------------------------ *)
-(* the normalised expression has the same prescribed tree and stays in the proved reference surface *)
+(* the normalised expression has the same prescribed tree and stays in the reference surface *)
 
 Lemma map_ext_Forall : forall {A B} (f g : A -> B) l, Forall (fun x => f x = g x) l -> map f l = map g l.
 Proof. intros A B f g l H. induction H; cbn [map]; [reflexivity|]. rewrite H, IHForall. reflexivity. Qed.
 
-Lemma ast_of_norm : forall pf e, proved e = true -> ast_of (norm pf e) = ast_of e.
+Lemma is_gcast_ast : forall a, is_gcast (ast_of a) = is_cast_m a.
+Proof. destruct a; reflexivity. Qed.
+
+Lemma ast_of_norm : forall pf e, ast_of (norm pf e) = ast_of e.
 Proof.
-  intros pf. induction e using mexpr_ind2; intros Hp; cbn [proved] in Hp; try discriminate; cbn [norm ast_of]; try reflexivity.
-  - apply andb_prop in Hp. destruct Hp. rewrite IHe1, IHe2 by assumption. reflexivity.
-  - rewrite IHe by assumption. reflexivity.
-  - rewrite IHe by assumption. reflexivity.
-  - apply andb_prop in Hp. destruct Hp as [Ha Hi]. rewrite IHe by assumption. f_equal.
-    rewrite map_map. apply map_ext_Forall.
-    rewrite forallb_forall in Hi. rewrite Forall_forall in *. intros x Hx. apply H; [exact Hx|apply Hi; exact Hx].
-  - apply andb_prop in Hp. destruct Hp as [Hp Hc]. apply andb_prop in Hp. destruct Hp.
-    rewrite IHe1, IHe2, IHe3 by assumption. reflexivity.
-  - apply andb_prop in Hp. destruct Hp. rewrite IHe1, IHe2 by assumption. reflexivity.
-  - apply andb_prop in Hp. destruct Hp. rewrite IHe by assumption. reflexivity.
-  - apply andb_prop in Hp. destruct Hp. rewrite IHe by assumption. reflexivity.
+  intros pf. induction e using mexpr_ind2; cbn [norm ast_of]; try reflexivity.
+  - rewrite IHe1, IHe2. reflexivity.
+  - rewrite IHe. reflexivity.
+  - rewrite IHe. reflexivity.
+  - rewrite IHe. f_equal. rewrite map_map. apply map_ext_Forall. exact H.
+  - rewrite IHe1, IHe2, IHe3. reflexivity.
+  - rewrite IHe1, IHe2. reflexivity.
+  - destruct (is_cast_m e); cbn [ast_of]; rewrite IHe; reflexivity.
+  - f_equal. rewrite map_map. apply map_ext_Forall. exact H.
+  - f_equal.
+    + destruct s as [a|]; cbn [option_map]; [rewrite (H a eq_refl); reflexivity|reflexivity].
+    + rewrite map_map. apply map_ext_Forall.
+      eapply Forall_impl; [|exact H0]. intros [c v] [Hc Hv]. cbn [fst snd] in *. rewrite Hc, Hv. reflexivity.
+    + destruct els as [a|]; cbn [option_map]; [rewrite (H1 a eq_refl); reflexivity|reflexivity].
+  - destruct (is_cast_m e); cbn [ast_of]; rewrite IHe; reflexivity.
+  - f_equal. rewrite map_map. apply map_ext_Forall. exact H.
 Qed.
 
-Lemma proved_norm : forall pf e, proved e = true -> proved (norm pf e) = true.
+Lemma forallb_map_Forall : forall {A} (f : A -> bool) (g : A -> A) l,
+    Forall (fun x => f x = true -> f (g x) = true) l -> forallb f l = true -> forallb f (map g l) = true.
 Proof.
-  intros pf. induction e using mexpr_ind2; intros Hp; cbn [proved] in Hp; try discriminate; cbn [norm proved]; try reflexivity.
-  - apply andb_prop in Hp. destruct Hp. rewrite IHe1, IHe2 by assumption. reflexivity.
-  - auto.
-  - auto.
-  - apply andb_prop in Hp. destruct Hp as [Ha Hi]. rewrite IHe by assumption. cbn [andb].
-    rewrite forallb_forall in *. intros x Hx. apply in_map_iff in Hx. destruct Hx as (y & E & Hy). subst x.
-    rewrite Forall_forall in H. apply H; [exact Hy|apply Hi; exact Hy].
-  - apply andb_prop in Hp. destruct Hp as [Hp Hc]. apply andb_prop in Hp. destruct Hp.
-    rewrite IHe1, IHe2, IHe3 by assumption. reflexivity.
-  - apply andb_prop in Hp. destruct Hp. rewrite IHe1, IHe2 by assumption. reflexivity.
-  - apply andb_prop in Hp. destruct Hp as [Ha Ht]. rewrite IHe by assumption. exact Ht.
-  - apply andb_prop in Hp. destruct Hp as [Ha Ht]. rewrite IHe by assumption. exact Ht.
+  intros A f g l H. induction H as [|x l Hx Hl IH]; intros Hf; cbn [map forallb] in *; [reflexivity|].
+  apply andb_prop in Hf. destruct Hf as [H1 H2]. rewrite (Hx H1), (IH H2). reflexivity.
 Qed.
 
-Lemma ref_norm : forall pf e, proved e = true -> ref_expr e = true -> ref_expr (norm pf e) = true.
+Lemma ref_whens_norm : forall pf whens,
+    Forall (fun cv : mexpr * mexpr => (ref_expr (fst cv) = true -> ref_expr (norm pf (fst cv)) = true)
+                                      /\ (ref_expr (snd cv) = true -> ref_expr (norm pf (snd cv)) = true)) whens ->
+    ref_whens ref_expr whens = true ->
+    ref_whens ref_expr (map (fun cv => (norm pf (fst cv), norm pf (snd cv))) whens) = true.
 Proof.
-  intros pf. induction e using mexpr_ind2; intros Hp Hr; cbn [proved] in Hp; try discriminate; cbn [norm ref_expr] in *; try exact Hr.
-  - apply andb_prop in Hp. destruct Hp. apply andb_prop in Hr. destruct Hr. rewrite IHe1, IHe2 by assumption. reflexivity.
+  intros pf whens H. induction H as [|[c v] l [Hc Hv] Hl IH]; intros Hr; cbn [map ref_whens fst snd] in *; [reflexivity|].
+  apply andb_prop in Hr. destruct Hr as [Hr H3]. apply andb_prop in Hr. destruct Hr as [H1 H2].
+  rewrite (Hc H1), (Hv H2), (IH H3). reflexivity.
+Qed.
+
+Lemma ref_norm : forall pf e, ref_expr e = true -> ref_expr (norm pf e) = true.
+Proof.
+  intros pf. induction e using mexpr_ind2; intros Hr; cbn [norm ref_expr] in *; try exact Hr.
+  - apply andb_prop in Hr. destruct Hr. rewrite IHe1, IHe2 by assumption. reflexivity.
   - auto.
   - auto.
-  - apply andb_prop in Hp. destruct Hp as [Ha Hi]. apply andb_prop in Hr. destruct Hr as [Hr Hf]. apply andb_prop in Hr. destruct Hr as [Hra Hl].
-    rewrite IHe by assumption. rewrite map_length, Hl. cbn [andb].
-    rewrite forallb_forall in *. intros x Hx. apply in_map_iff in Hx. destruct Hx as (y & E & Hy). subst x.
-    rewrite Forall_forall in H. apply H; [exact Hy|apply Hi; exact Hy|apply Hf; exact Hy].
-  - apply andb_prop in Hp. destruct Hp as [Hp Hc]. apply andb_prop in Hp. destruct Hp.
-    apply andb_prop in Hr. destruct Hr as [Hr Hr3]. apply andb_prop in Hr. destruct Hr.
+  - apply andb_prop in Hr. destruct Hr as [Hr Hf]. apply andb_prop in Hr. destruct Hr as [Hra Hl].
+    rewrite IHe by assumption. rewrite map_length, Hl. cbn [andb]. apply forallb_map_Forall; assumption.
+  - apply andb_prop in Hr. destruct Hr as [Hr Hr3]. apply andb_prop in Hr. destruct Hr.
     rewrite IHe1, IHe2, IHe3 by assumption. reflexivity.
-  - apply andb_prop in Hp. destruct Hp. apply andb_prop in Hr. destruct Hr. rewrite IHe1, IHe2 by assumption. reflexivity.
-  - apply andb_prop in Hp. destruct Hp. apply andb_prop in Hr. destruct Hr as [Hr Ht]. rewrite IHe by assumption. exact Ht.
-  - apply andb_prop in Hp. destruct Hp. apply andb_prop in Hr. destruct Hr as [Hr Ht]. rewrite IHe by assumption. exact Ht.
+  - apply andb_prop in Hr. destruct Hr. rewrite IHe1, IHe2 by assumption. reflexivity.
+  - apply andb_prop in Hr. destruct Hr as [Hr Ht]. destruct (is_cast_m e); cbn [ref_expr]; rewrite IHe by assumption; exact Ht.
+  - apply andb_prop in Hr. destruct Hr as [Hn Ha]. rewrite Hn. cbn [andb]. apply forallb_map_Forall; assumption.
+  - apply andb_prop in Hr. destruct Hr as [Hr He]. apply andb_prop in Hr. destruct Hr as [Hr Hw].
+    apply andb_prop in Hr. destruct Hr as [Hs Hl].
+    rewrite map_length, Hl.
+    assert (E1 : match option_map (norm pf) s with Some a => ref_expr a | None => true end = true).
+    { destruct s as [a|]; cbn [option_map]; [apply (H a eq_refl); exact Hs|reflexivity]. }
+    assert (E3 : match option_map (norm pf) els with Some a => ref_expr a | None => true end = true).
+    { destruct els as [a|]; cbn [option_map]; [apply (H1 a eq_refl); exact He|reflexivity]. }
+    rewrite E1, E3, (ref_whens_norm pf whens H0 Hw). reflexivity.
+  - apply andb_prop in Hr. destruct Hr as [Hr Ht]. destruct (is_cast_m e); cbn [ref_expr]; rewrite IHe by assumption; exact Ht.
+  - apply andb_prop in Hr. destruct Hr as [Hl Ha]. rewrite map_length, Hl. cbn [andb]. apply forallb_map_Forall; assumption.
 Qed.
 
 (* ------------------------------------------------------------------------------------------------ *)
 (* the printer's level of the prescribed tree decides parentheses like the reference level of the normalised
    expression, in every context the printer uses (contexts are at most precUnary = 7) *)
-Lemma prec_norm : forall e ctx, proved e = true -> ctx <= 7 ->
+Lemma prec_norm : forall e ctx, ctx <= 7 ->
     (go_prec (ast_of e) <? ctx) = (level_of (norm print_ok e) <? ctx).
 Proof.
-  intros e ctx Hp Hc.
-  assert (Hprim : forall a b, 8 <= a -> 8 <= b -> (a <? ctx) = (b <? ctx)).
+  intros e ctx Hc.
+  assert (Hprim : forall a b, 7 <= a -> 7 <= b -> (a <? ctx) = (b <? ctx)).
   { intros a b Ha Hb. destruct (Nat.ltb_spec a ctx), (Nat.ltb_spec b ctx); try reflexivity; lia. }
+  assert (Hcast : forall g ty, 7 <= go_prec (GCast g ty)).
+  { intros g ty. cbn [go_prec]. destruct (is_gcast g || is_array_type ty); unfold p_postfix, p_primary; lia. }
   destruct e as [q n|t n|s|s|s| |b|op a b|a|a neg|a neg items|a neg lo hi|a neg ci p|a t|n d args|s whens els|a t|es];
-    cbn [proved] in Hp; try discriminate; cbn [norm ast_of level_of go_prec];
-    try (apply Hprim; unfold null_lit, go_prec, p_primary; lia); try reflexivity.
-  - destruct op as [| |c| | | | | |]; try reflexivity. destruct c; reflexivity.
-  - destruct neg; reflexivity.
-  - destruct ci, neg; reflexivity.
+    cbn [norm ast_of].
+  all: try (apply Hprim; [first [apply Hcast | unfold null_lit, go_prec, p_primary; lia]|]).
+  all: try (cbn [level_of]; lia).
+  all: try (destruct (is_cast_m a); cbn [level_of]; lia).
+  - cbn [go_prec level_of]. destruct op as [| |c| | | | | |]; try reflexivity. destruct c; reflexivity.
+  - reflexivity.
+  - cbn [go_prec level_of]. destruct neg; reflexivity.
+  - reflexivity.
+  - reflexivity.
+  - cbn [go_prec level_of]. destruct ci, neg; reflexivity.
 Qed.
 
 (* ------------------------------------------------------------------------------------------------ *)
@@ -164,56 +187,165 @@ Lemma binop_prec_bin : forall op,
     /\ is_null_op (upper (bin_str op)) = false.
 Proof. destruct op as [| |c| | | | | |]; try (repeat split; reflexivity). destruct c; repeat split; reflexivity. Qed.
 
-Lemma type_tokens_word : forall w, all_chars type_char w = true -> String.eqb w "" = false ->
-    type_tokens w = Some [Tk TyIdent w].
+Lemma append_assoc_s0 : forall a b c : string, ((a ++ b) ++ c)%string = (a ++ (b ++ c))%string.
+Proof. induction a as [|x a IH]; intros; cbn; [reflexivity|]. rewrite IH. reflexivity. Qed.
+Lemma append_nil_s0 : forall a : string, (a ++ "")%string = a.
+Proof. induction a as [|x a IH]; cbn; [reflexivity|]. rewrite IH. reflexivity. Qed.
+
+Lemma word_not_punct : forall c, type_char c = true -> is_punct c = false.
 Proof.
-  intros w Hw Hne. unfold type_tokens. rewrite Hne.
-  assert (G : forall s cur, all_chars type_char s = true -> String.eqb (cur ++ s)%string "" = false ->
-              split_on is_punct s cur = [inl (cur ++ s)%string]).
-  { induction s as [|c s IH]; intros cur Hs Hn; cbn [split_on].
-    - assert (E : (cur ++ "")%string = cur) by (clear; induction cur as [|x cur IH]; cbn; [reflexivity|f_equal; exact IH]).
-      rewrite E in *. rewrite Hn. reflexivity.
-    - cbn [all_chars] in Hs. apply andb_prop in Hs. destruct Hs as [Hc Hs].
-      assert (Hp : is_punct c = false).
-      { unfold is_punct. unfold type_char, word_char, is_alpha, is_digit_c, in_range in Hc.
-        destruct (Ascii.eqb_spec c "("%char) as [E|]; [subst c; discriminate Hc|].
-        destruct (Ascii.eqb_spec c ")"%char) as [E|]; [subst c; discriminate Hc|].
-        destruct (Ascii.eqb_spec c ","%char) as [E|]; [subst c; discriminate Hc|]. reflexivity. }
-      rewrite Hp.
-      assert (E : ((cur ++ String c "") ++ s)%string = (cur ++ String c s)%string)
-        by (clear; induction cur as [|x cur IH]; cbn; [reflexivity|f_equal; exact IH]).
-      rewrite IH; [rewrite E; reflexivity|exact Hs|rewrite E; exact Hn]. }
-  rewrite (G w "" Hw Hne). cbn [append type_pieces type_piece]. rewrite Hw. reflexivity.
+  intros c Hc. unfold is_punct. unfold type_char, word_char, is_alpha, is_digit_c, in_range in Hc.
+  destruct (Ascii.eqb_spec c "("%char) as [E|]; [subst c; discriminate Hc|].
+  destruct (Ascii.eqb_spec c ")"%char) as [E|]; [subst c; discriminate Hc|].
+  destruct (Ascii.eqb_spec c ","%char) as [E|]; [subst c; discriminate Hc|]. reflexivity.
+Qed.
+
+(* scanning a word: it is collected into the current piece *)
+Lemma split_word : forall w rest cur, all_chars type_char w = true ->
+    split_on is_punct (w ++ rest)%string cur = split_on is_punct rest (cur ++ w)%string.
+Proof.
+  induction w as [|c w IH]; intros rest cur Hw; cbn [append].
+  - rewrite append_nil_s0. reflexivity.
+  - cbn [all_chars] in Hw. apply andb_prop in Hw. destruct Hw as [Hc Hw].
+    cbn [split_on]. rewrite (word_not_punct c Hc). rewrite IH by exact Hw.
+    rewrite append_assoc_s0. reflexivity.
+Qed.
+
+Lemma word_nonempty : forall w, String.eqb w "" = false -> forall cur, String.eqb (cur ++ w)%string "" = false.
+Proof.
+  intros w Hw cur. destruct w as [|c w]; [discriminate Hw|]. destruct cur; reflexivity.
+Qed.
+
+(* the pieces of "a1,a2,...,an)" *)
+Fixpoint arg_pieces (args : list string) : list (string + ascii) :=
+  match args with
+  | [] => []
+  | [x] => [inl x]
+  | x :: r => inl x :: inr ","%char :: arg_pieces r
+  end.
+
+Lemma split_args : forall args,
+    args <> [] -> forallb (fun x => all_chars type_char x && negb (String.eqb x "")) args = true ->
+    split_on is_punct (join_comma args ++ ")")%string "" = arg_pieces args ++ [inr ")"%char].
+Proof.
+  induction args as [|x r IH]; intros Hne Hf; [contradiction|].
+  cbn [forallb] in Hf. apply andb_prop in Hf. destruct Hf as [Hx Hr]. apply andb_prop in Hx. destruct Hx as [Hw Hn].
+  apply negb_true_iff in Hn.
+  destruct r as [|y r'].
+  - cbn [join_comma arg_pieces app]. rewrite split_word by exact Hw. cbn [append split_on is_punct].
+    change (Ascii.eqb ")" "(" || Ascii.eqb ")" ")" || Ascii.eqb ")" ",")%char with true. cbn iota.
+    rewrite Hn. reflexivity.
+  - change (join_comma (x :: y :: r')) with (x ++ "," ++ join_comma (y :: r'))%string.
+    rewrite append_assoc_s0. rewrite split_word by exact Hw. cbn [append split_on].
+    change (is_punct ","%char) with true. cbn iota. rewrite Hn.
+    change (arg_pieces (x :: y :: r')) with (inl x :: inr ","%char :: arg_pieces (y :: r')).
+    cbn [app]. rewrite IH; [reflexivity|discriminate|exact Hr].
+Qed.
+
+Lemma pieces_args : forall args i,
+    forallb (fun x => all_chars type_char x && negb (String.eqb x "")) args = true ->
+    type_pieces (S i) (arg_pieces args ++ [inr ")"%char])
+    = Some (sep_by [tComma] (map (fun s => [Tk TyNumber s]) args) ++ [tRP]).
+Proof.
+  induction args as [|x r IH]; intros i Hf; [reflexivity|].
+  cbn [forallb] in Hf. apply andb_prop in Hf. destruct Hf as [Hx Hr]. apply andb_prop in Hx. destruct Hx as [Hw _].
+  destruct r as [|y r'].
+  - cbn [arg_pieces app type_pieces type_piece map sep_by]. rewrite Hw. reflexivity.
+  - change (arg_pieces (x :: y :: r')) with (inl x :: inr ","%char :: arg_pieces (y :: r')).
+    cbn [app type_pieces type_piece]. rewrite Hw. cbn [Nat.eqb].
+    rewrite (IH (S (S i)) Hr). reflexivity.
+Qed.
+
+Lemma type_tokens_type : forall t,
+    all_chars type_char (tname t) = true -> String.eqb (tname t) "" = false ->
+    forallb (fun x => all_chars type_char x && negb (String.eqb x "")) (targs t) = true ->
+    type_tokens (type_str t) = Some (type_toks t).
+Proof.
+  intros [name args] Hw Hne Ha. cbn [tname targs] in *. unfold type_str, type_toks, type_tokens. cbn [tname targs].
+  destruct args as [|x r].
+  - rewrite Hne. rewrite <- (append_nil_s0 name) at 1. rewrite split_word by exact Hw. cbn [append split_on].
+    rewrite Hne. cbn [type_pieces type_piece]. rewrite Hw. reflexivity.
+  - assert (Hn2 : String.eqb (name ++ "(" ++ join_comma (x :: r) ++ ")")%string "" = false)
+      by (destruct name; [discriminate Hne|reflexivity]).
+    rewrite Hn2. rewrite split_word by exact Hw. cbn [append split_on].
+    change (is_punct "("%char) with true. cbn iota. rewrite Hne.
+    rewrite split_args; [|discriminate|exact Ha].
+    cbn [app type_pieces type_piece]. rewrite Hw. cbn [Nat.eqb].
+    rewrite (pieces_args (x :: r) 1 Ha). reflexivity.
 Qed.
 
 Lemma plain_name_nonempty : forall s, plain_name s = true -> String.eqb s "" = false.
 Proof. intros s H. unfold plain_name in H. apply andb_prop in H. destruct H as [H _]. apply negb_true_iff in H. exact H. Qed.
 
+(* a plain name is none of the datetime value functions that are written without parentheses *)
+Lemma plain_not_niladic : forall n, plain_name n = true -> is_niladic n = false.
+Proof.
+  intros n H. unfold plain_name in H. apply andb_prop in H. destruct H as [_ H].
+  unfold special_words in H. cbn [forallb] in H.
+  repeat (apply andb_prop in H; let H1 := fresh "Hw" in destruct H as [H1 H]).
+  unfold is_niladic. cbn [existsb]. unfold eqfold in *.
+  repeat match goal with Hx : negb (String.eqb (upper n) (upper ?w)) = true |- _ =>
+           apply negb_true_iff in Hx; change (upper w) with w in Hx end.
+  rewrite Hw5, Hw6, Hw7, Hw8, Hw9. reflexivity.
+Qed.
+
 Definition Q (e : mexpr) : Prop :=
-  proved e = true -> ref_expr e = true -> printable print_ok e = true ->
+  ref_expr e = true -> printable print_ok e = true ->
   forall r ctx, zero_rho r -> ctx <= 7 ->
     operand print_ok (ast_of e) ctx = Some (render ctx r (norm print_ok e)).
 
 (* from the body to the operand form *)
-Lemma Q_of_body : forall e, proved e = true ->
+Lemma Q_of_body : forall e,
     (forall r, zero_rho r -> print_expr print_ok (ast_of e) = Some (body r (norm print_ok e))) ->
     forall r ctx, zero_rho r -> ctx <= 7 -> operand print_ok (ast_of e) ctx = Some (render ctx r (norm print_ok e)).
 Proof.
-  intros e Hp Hb r ctx Hz Hc. unfold operand. rewrite (Hb r Hz), par_ok, render_zero by assumption.
-  rewrite (prec_norm e ctx Hp Hc). reflexivity.
+  intros e Hb r ctx Hz Hc. unfold operand. rewrite (Hb r Hz), par_ok, render_zero by assumption.
+  rewrite (prec_norm e ctx Hc). reflexivity.
 Qed.
 
 Lemma list_items : forall items r i,
-    Forall Q items -> forallb proved items = true -> forallb ref_expr items = true -> forallb (printable print_ok) items = true ->
+    Forall Q items -> forallb ref_expr items = true -> forallb (printable print_ok) items = true ->
     zero_rho r ->
     all_some (map (print_expr print_ok) (map ast_of items)) = Some (render_list render 0 r i (map (norm print_ok) items)).
 Proof.
-  induction items as [|x items IH]; intros r i HQ Hp Hr Hpr Hz; cbn [map all_some render_list]; [reflexivity|].
-  cbn [forallb] in Hp, Hr, Hpr. apply andb_prop in Hp, Hr, Hpr. destruct Hp as [Hp1 Hp2], Hr as [Hr1 Hr2], Hpr as [Hq1 Hq2].
+  induction items as [|x items IH]; intros r i HQ Hr Hpr Hz; cbn [map all_some render_list]; [reflexivity|].
+  cbn [forallb] in Hr, Hpr. apply andb_prop in Hr, Hpr. destruct Hr as [Hr1 Hr2], Hpr as [Hq1 Hq2].
   inversion HQ as [|? ? HQx HQl]; subst.
   rewrite <- (operand_zero print_ok (ast_of x)).
-  rewrite (HQx Hp1 Hr1 Hq1 (sub r i) 0 (zero_sub r i Hz) ltac:(lia)).
-  rewrite (IH r (S i) HQl Hp2 Hr2 Hq2 Hz). reflexivity.
+  rewrite (HQx Hr1 Hq1 (sub r i) 0 (zero_sub r i Hz) ltac:(lia)).
+  rewrite (IH r (S i) HQl Hr2 Hq2 Hz). reflexivity.
+Qed.
+
+Lemma whens_items : forall whens r i,
+    Forall (fun cv : mexpr * mexpr => Q (fst cv) /\ Q (snd cv)) whens ->
+    ref_whens ref_expr whens = true ->
+    forallb (fun cv : mexpr * mexpr => printable print_ok (fst cv) && printable print_ok (snd cv)) whens = true ->
+    zero_rho r ->
+    exists wts,
+      all_some (map (fun cv : gexpr * gexpr =>
+                       match print_expr print_ok (fst cv), print_expr print_ok (snd cv) with
+                       | Some c, Some x => Some (Tk TyWhen "WHEN" :: c ++ Tk TyThen "THEN" :: x)
+                       | _, _ => None
+                       end) (map (fun cv : mexpr * mexpr => (ast_of (fst cv), ast_of (snd cv))) whens)) = Some wts
+      /\ List.concat wts = render_whens render r i (map (fun cv => (norm print_ok (fst cv), norm print_ok (snd cv))) whens).
+Proof.
+  induction whens as [|[c v] l IH]; intros r i HQ Hr Hp Hz; cbn [map all_some render_whens].
+  - exists []. split; reflexivity.
+  - cbn [ref_whens fst snd] in Hr. apply andb_prop in Hr. destruct Hr as [Hr H3]. apply andb_prop in Hr. destruct Hr as [H1 H2].
+    cbn [forallb fst snd] in Hp. apply andb_prop in Hp. destruct Hp as [Hp Hp3]. apply andb_prop in Hp. destruct Hp as [Hp1 Hp2].
+    inversion HQ as [|? ? [HQc HQv] HQl]; subst. cbn [fst snd] in *.
+    destruct (IH r (S (S i)) HQl H3 Hp3 Hz) as (wts & E1 & E2).
+    rewrite <- (operand_zero print_ok (ast_of c)), <- (operand_zero print_ok (ast_of v)).
+    rewrite (HQc H1 Hp1 (sub r i) 0 (zero_sub r i Hz) ltac:(lia)).
+    rewrite (HQv H2 Hp2 (sub r (S i)) 0 (zero_sub r (S i) Hz) ltac:(lia)).
+    rewrite E1. eexists. split; [reflexivity|]. cbn [List.concat]. rewrite E2.
+    cbn [app]. rewrite <- !app_assoc. reflexivity.
+Qed.
+
+Lemma operand_prim : forall g ctx, ctx <= go_prec g -> operand print_ok g ctx = print_expr print_ok g.
+Proof.
+  intros g ctx H. unfold operand, par. destruct (print_expr print_ok g); [|reflexivity].
+  destruct (Nat.ltb_spec (go_prec g) ctx); [lia|]. rewrite andb_false_r. reflexivity.
 Qed.
 
 Ltac fold_operand :=
@@ -221,108 +353,147 @@ Ltac fold_operand :=
          | |- context [par ?pf (go_prec ?g) ?c (print_expr ?pf ?g)] => change (par pf (go_prec g) c (print_expr pf g)) with (operand pf g c)
          end.
 
+(* both cast forms: CAST(e AS t) unless e is itself a cast, then e::t *)
+Lemma cast_case : forall e t (norm_e : mexpr),
+    Q e -> ref_expr e = true -> type_ok t = true -> printable print_ok e = true ->
+    all_chars type_char (tname t) = true ->
+    forallb (fun x => all_chars type_char x && negb (String.eqb x "")) (targs t) = true ->
+    forall r, zero_rho r ->
+    print_expr print_ok (GCast (ast_of e) (type_str t))
+    = Some (body r (if is_cast_m e then MCastOp (norm print_ok e) t else MCast (norm print_ok e) t)).
+Proof.
+  intros e t _ HQ Hr Ht Hq Hw Ha r Hz.
+  cbn [print_expr]. rewrite is_gcast_ast.
+  rewrite (type_tokens_type t Hw (plain_name_nonempty _ Ht) Ha).
+  destruct (is_cast_m e) eqn:Hc; cbn [body].
+  - rewrite <- (operand_prim (ast_of e) 7).
+    + rewrite (HQ Hr Hq (sub r 0) 7 (zero_sub r 0 Hz) ltac:(lia)). reflexivity.
+    + destruct e; try discriminate Hc; cbn [ast_of go_prec];
+        match goal with |- context [if ?b then _ else _] => destruct b end; unfold p_postfix, p_primary; lia.
+  - rewrite <- (operand_zero print_ok (ast_of e)).
+    rewrite (HQ Hr Hq (sub r 0) 0 (zero_sub r 0 Hz) ltac:(lia)). reflexivity.
+Qed.
+
 Theorem all_Q : forall e, Q e.
 Proof.
-  induction e using mexpr_ind2; unfold Q; intros Hp Hr Hq; cbn [proved] in Hp; try discriminate;
-    apply Q_of_body; try exact Hp; intros r Hz; cbn [norm ast_of body].
+  induction e using mexpr_ind2; unfold Q; intros Hr Hq;
+    apply Q_of_body; intros r Hz; cbn [norm ast_of].
   - (* identifier *)
-    cbn [print_expr]. cbn [printable] in Hq. rewrite (ident_tokens_bare n Hq). reflexivity.
+    cbn [body print_expr]. cbn [printable] in Hq. rewrite (ident_tokens_bare n Hq). reflexivity.
   - (* qualified identifier *)
-    cbn [print_expr]. cbn [printable] in Hq. apply andb_prop in Hq. destruct Hq as [Ht Hn].
+    cbn [body print_expr]. cbn [printable] in Hq. apply andb_prop in Hq. destruct Hq as [Ht Hn].
     cbn [ref_expr] in Hr. apply andb_prop in Hr. destruct Hr as [Hrt _].
     rewrite (plain_name_nonempty t Hrt). rewrite (ident_tokens_plain t Ht), (ident_tokens_plain n Hn). reflexivity.
   - (* number *)
-    cbn [print_expr lit_tokens]. unfold num_type. destruct (has_float_char s); reflexivity.
+    cbn [body print_expr lit_tokens]. unfold num_type. destruct (has_float_char s); reflexivity.
   - reflexivity.
   - reflexivity.
   - reflexivity.
   - destruct b; reflexivity.
   - (* binary operator *)
-    apply andb_prop in Hp. destruct Hp as [Hp1 Hp2]. cbn [ref_expr] in Hr. apply andb_prop in Hr. destruct Hr as [Hr1 Hr2].
+    cbn [ref_expr] in Hr. apply andb_prop in Hr. destruct Hr as [Hr1 Hr2].
     cbn [printable] in Hq. apply andb_prop in Hq. destruct Hq as [Hq1 Hq2].
     destruct (binop_prec_bin op) as (El & Er & En).
-    cbn [print_expr]. fold_operand. rewrite El, Er, En.
-    rewrite (IHe1 Hp1 Hr1 Hq1 (sub r 0) (fst (bin_ctx op))); [|apply zero_sub; exact Hz|destruct op as [| |c| | | | | |]; cbn; lia].
+    cbn [body print_expr]. fold_operand. rewrite El, Er, En.
+    rewrite (IHe1 Hr1 Hq1 (sub r 0) (fst (bin_ctx op))); [|apply zero_sub; exact Hz|destruct op as [| |c| | | | | |]; cbn; lia].
     cbn [ob].
-    rewrite (IHe2 Hp2 Hr2 Hq2 (sub r 1) (snd (bin_ctx op))); [|apply zero_sub; exact Hz|destruct op as [| |c| | | | | |]; cbn; lia].
+    rewrite (IHe2 Hr2 Hq2 (sub r 1) (snd (bin_ctx op))); [|apply zero_sub; exact Hz|destruct op as [| |c| | | | | |]; cbn; lia].
     cbn [ob]. rewrite op_token_bin. reflexivity.
   - (* NOT *)
     cbn [ref_expr] in Hr. cbn [printable] in Hq.
-    cbn [print_expr]. fold_operand. rewrite N.eqb_refl. change p_not with 2.
-    rewrite (IHe Hp Hr Hq (sub r 0) 2); [|apply zero_sub; exact Hz|lia]. reflexivity.
+    cbn [body print_expr]. fold_operand. rewrite N.eqb_refl. change p_not with 2.
+    rewrite (IHe Hr Hq (sub r 0) 2); [|apply zero_sub; exact Hz|lia]. reflexivity.
   - (* IS [NOT] NULL *)
     cbn [ref_expr] in Hr. cbn [printable] in Hq.
-    cbn [print_expr]. fold_operand.
+    cbn [body print_expr]. fold_operand.
     change (lctx (binop_prec (upper "IS NULL"))) with 4.
-    rewrite (IHe Hp Hr Hq (sub r 0) 4); [|apply zero_sub; exact Hz|lia].
+    rewrite (IHe Hr Hq (sub r 0) 4); [|apply zero_sub; exact Hz|lia].
     cbn [ob]. destruct neg; reflexivity.
   - (* [NOT] IN (list) *)
-    apply andb_prop in Hp. destruct Hp as [Hp1 Hp2]. cbn [ref_expr] in Hr. apply andb_prop in Hr. destruct Hr as [Hr Hr2].
+    cbn [ref_expr] in Hr. apply andb_prop in Hr. destruct Hr as [Hr Hr2].
     apply andb_prop in Hr. destruct Hr as [Hr1 _].
     cbn [printable] in Hq. apply andb_prop in Hq. destruct Hq as [Hq1 Hq2].
-    cbn [print_expr]. fold_operand. change p_concat with 4.
-    rewrite (IHe Hp1 Hr1 Hq1 (sub r 0) 4); [|apply zero_sub; exact Hz|lia].
-    cbn [ob]. rewrite (list_items items r 1 H Hp2 Hr2 Hq2 Hz). cbn [ob].
+    cbn [body print_expr]. fold_operand. change p_concat with 4.
+    rewrite (IHe Hr1 Hq1 (sub r 0) 4); [|apply zero_sub; exact Hz|lia].
+    cbn [ob]. rewrite (list_items items r 1 H Hr2 Hq2 Hz). cbn [ob].
     destruct neg; reflexivity.
   - (* [NOT] BETWEEN *)
-    apply andb_prop in Hp. destruct Hp as [Hp Hp3]. apply andb_prop in Hp. destruct Hp as [Hp1 Hp2].
     cbn [ref_expr] in Hr. apply andb_prop in Hr. destruct Hr as [Hr Hr3]. apply andb_prop in Hr. destruct Hr as [Hr1 Hr2].
     cbn [printable] in Hq. apply andb_prop in Hq. destruct Hq as [Hq Hq3]. apply andb_prop in Hq. destruct Hq as [Hq1 Hq2].
-    cbn [print_expr]. fold_operand. change p_concat with 4.
-    rewrite (IHe1 Hp1 Hr1 Hq1 (sub r 0) 4); [|apply zero_sub; exact Hz|lia]. cbn [ob].
-    rewrite (IHe2 Hp2 Hr2 Hq2 (sub r 1) 4); [|apply zero_sub; exact Hz|lia]. cbn [ob].
-    rewrite (IHe3 Hp3 Hr3 Hq3 (sub r 2) 4); [|apply zero_sub; exact Hz|lia]. cbn [ob].
+    cbn [body print_expr]. fold_operand. change p_concat with 4.
+    rewrite (IHe1 Hr1 Hq1 (sub r 0) 4); [|apply zero_sub; exact Hz|lia]. cbn [ob].
+    rewrite (IHe2 Hr2 Hq2 (sub r 1) 4); [|apply zero_sub; exact Hz|lia]. cbn [ob].
+    rewrite (IHe3 Hr3 Hq3 (sub r 2) 4); [|apply zero_sub; exact Hz|lia]. cbn [ob].
     destruct neg; reflexivity.
   - (* [NOT] LIKE / ILIKE *)
-    apply andb_prop in Hp. destruct Hp as [Hp1 Hp2]. cbn [ref_expr] in Hr. apply andb_prop in Hr. destruct Hr as [Hr1 Hr2].
+    cbn [ref_expr] in Hr. apply andb_prop in Hr. destruct Hr as [Hr1 Hr2].
     cbn [printable] in Hq. apply andb_prop in Hq. destruct Hq as [Hq1 Hq2].
-    cbn [print_expr]. fold_operand.
+    cbn [body print_expr]. fold_operand.
     assert (E : forall (c : bool), lctx (binop_prec (upper (if c then "ILIKE" else "LIKE"))) = 4
                                    /\ rctx (binop_prec (upper (if c then "ILIKE" else "LIKE"))) = 4
                                    /\ is_null_op (upper (if c then "ILIKE" else "LIKE")) = false) by (intros [|]; repeat split; reflexivity).
     destruct (E ci) as (E1 & E2 & E3). rewrite E1, E2, E3.
-    rewrite (IHe1 Hp1 Hr1 Hq1 (sub r 0) 4); [|apply zero_sub; exact Hz|lia]. cbn [ob].
-    rewrite (IHe2 Hp2 Hr2 Hq2 (sub r 1) 4); [|apply zero_sub; exact Hz|lia]. cbn [ob].
+    rewrite (IHe1 Hr1 Hq1 (sub r 0) 4); [|apply zero_sub; exact Hz|lia]. cbn [ob].
+    rewrite (IHe2 Hr2 Hq2 (sub r 1) 4); [|apply zero_sub; exact Hz|lia]. cbn [ob].
     destruct ci, neg; reflexivity.
-  - (* e :: type, written CAST(e AS type) *)
-    apply andb_prop in Hp. destruct Hp as [Hp1 Hp2]. cbn [ref_expr] in Hr. apply andb_prop in Hr. destruct Hr as [Hr1 Hr2].
-    cbn [printable] in Hq. apply andb_prop in Hq. destruct Hq as [Hq1 Hq2].
-    cbn [print_expr]. rewrite <- (operand_zero print_ok (ast_of e)).
-    rewrite (IHe Hp1 Hr1 Hq1 (sub r 0) 0); [|apply zero_sub; exact Hz|lia]. cbn [ob].
-    unfold type_str, type_toks. destruct (targs t); [|discriminate Hp2].
-    rewrite (type_tokens_word (tname t) Hq2 (plain_name_nonempty _ Hr2)). reflexivity.
+  - (* e :: type *)
+    cbn [ref_expr] in Hr. apply andb_prop in Hr. destruct Hr as [Hr1 Hr2].
+    cbn [printable] in Hq. apply andb_prop in Hq. destruct Hq as [Hq Hq3]. apply andb_prop in Hq. destruct Hq as [Hq1 Hq2].
+    apply (cast_case e t e IHe Hr1 Hr2 Hq1 Hq2 Hq3 r Hz).
+  - (* function call *)
+    cbn [ref_expr] in Hr. apply andb_prop in Hr. destruct Hr as [Hn Ha].
+    cbn [printable] in Hq.
+    cbn [body print_expr]. rewrite (plain_not_niladic n Hn). cbn [andb].
+    rewrite (list_items args r 0 H Ha Hq Hz). cbn [ob]. reflexivity.
+  - (* CASE *)
+    cbn [ref_expr] in Hr. apply andb_prop in Hr. destruct Hr as [Hr He]. apply andb_prop in Hr. destruct Hr as [Hr Hw].
+    apply andb_prop in Hr. destruct Hr as [Hs _].
+    cbn [printable] in Hq. apply andb_prop in Hq. destruct Hq as [Hq Hqe]. apply andb_prop in Hq. destruct Hq as [Hqs Hqw].
+    cbn [body print_expr].
+    destruct (whens_items whens r 2 H0 Hw Hqw Hz) as (wts & E1 & E2).
+    assert (Es : match option_map ast_of s with Some a => print_expr print_ok a | None => Some [] end
+                 = Some (match option_map (norm print_ok) s with Some a => render 0 (sub r 0) a | None => [] end)).
+    { destruct s as [a|]; cbn [option_map]; [|reflexivity].
+      rewrite <- (operand_zero print_ok (ast_of a)). apply (H a eq_refl Hs Hqs (sub r 0) 0 (zero_sub r 0 Hz)). lia. }
+    assert (Ee : match option_map ast_of els with
+                 | Some a => ob (print_expr print_ok a) (fun x => Some (Tk TyElse "ELSE" :: x))
+                 | None => Some [] end
+                 = Some (match option_map (norm print_ok) els with Some a => Tk TyElse "ELSE" :: render 0 (sub r 1) a | None => [] end)).
+    { destruct els as [a|]; cbn [option_map]; [|reflexivity].
+      rewrite <- (operand_zero print_ok (ast_of a)). rewrite (H1 a eq_refl He Hqe (sub r 1) 0 (zero_sub r 1 Hz)); [reflexivity|lia]. }
+    rewrite Es. cbn [ob]. rewrite E1. cbn [ob]. rewrite Ee. cbn [ob]. rewrite E2. reflexivity.
   - (* CAST(e AS type) *)
-    apply andb_prop in Hp. destruct Hp as [Hp1 Hp2]. cbn [ref_expr] in Hr. apply andb_prop in Hr. destruct Hr as [Hr1 Hr2].
-    cbn [printable] in Hq. apply andb_prop in Hq. destruct Hq as [Hq1 Hq2].
-    cbn [print_expr]. rewrite <- (operand_zero print_ok (ast_of e)).
-    rewrite (IHe Hp1 Hr1 Hq1 (sub r 0) 0); [|apply zero_sub; exact Hz|lia]. cbn [ob].
-    unfold type_str, type_toks. destruct (targs t); [|discriminate Hp2].
-    rewrite (type_tokens_word (tname t) Hq2 (plain_name_nonempty _ Hr2)). reflexivity.
+    cbn [ref_expr] in Hr. apply andb_prop in Hr. destruct Hr as [Hr1 Hr2].
+    cbn [printable] in Hq. apply andb_prop in Hq. destruct Hq as [Hq Hq3]. apply andb_prop in Hq. destruct Hq as [Hq1 Hq2].
+    apply (cast_case e t e IHe Hr1 Hr2 Hq1 Hq2 Hq3 r Hz).
+  - (* tuple *)
+    cbn [ref_expr] in Hr. apply andb_prop in Hr. destruct Hr as [_ Ha].
+    cbn [printable] in Hq.
+    cbn [body print_expr]. rewrite (list_items es r 0 H Ha Hq Hz). cbn [ob]. reflexivity.
 Qed.
 
 (* ------------------------------------------------------------------------------------------------ *)
 (* the theorems *)
 
 Theorem print_is_render : forall e,
-    proved e = true -> ref_expr e = true -> printable print_ok e = true ->
+    ref_expr e = true -> printable print_ok e = true ->
     print_expr print_ok (ast_of e) = Some (render 0 no_parens (norm print_ok e)).
 Proof.
-  intros e Hp Hr Hq. rewrite <- operand_zero. apply (all_Q e Hp Hr Hq no_parens 0 zero_no_parens). lia.
+  intros e Hr Hq. rewrite <- operand_zero. apply (all_Q e Hr Hq no_parens 0 zero_no_parens). lia.
 Qed.
 
 (* round trip: the parser model reads the printed tokens back to the same tree and leaves the follow tokens *)
 Theorem print_parse_expr : forall md e stop d fuel,
-    proved e = true -> ref_expr e = true -> printable print_ok e = true -> follow_ok stop ->
+    ref_expr e = true -> printable print_ok e = true -> follow_ok stop ->
     d + 1 + pdepth 0 no_parens (norm print_ok e) <= md ->
     exists ts, print_expr print_ok (ast_of e) = Some ts
                /\ (length (ts ++ stop) < fuel -> parse_expression md no_defects fuel d (ts ++ stop) = Val (ast_of e, stop)).
 Proof.
-  intros md e stop d fuel Hp Hr Hq Hfo Hdep.
+  intros md e stop d fuel Hr Hq Hfo Hdep.
   exists (render 0 no_parens (norm print_ok e)). split; [apply print_is_render; assumption|].
-  intros Hlen. rewrite <- (ast_of_norm print_ok e Hp).
-  apply parse_render_expr_partial; try assumption.
-  - apply proved_norm; exact Hp.
-  - apply ref_norm; assumption.
+  intros Hlen. rewrite <- (ast_of_norm print_ok e).
+  apply parse_render_expr_ext; try assumption.
+  apply ref_norm; assumption.
 Qed.
 
 (* formatting = print after parse *)
@@ -334,30 +505,30 @@ Definition fmt_expr (md fuel d : nat) (ts : list token) : option (list token * l
 
 (* every rendering of e (any redundant parentheses) is formatted to the same canonical token list ... *)
 Theorem fmt_canonical : forall md e (r : rho) stop d fuel,
-    proved e = true -> ref_expr e = true -> printable print_ok e = true -> follow_ok stop ->
+    ref_expr e = true -> printable print_ok e = true -> follow_ok stop ->
     d + 1 + pdepth 0 r e <= md -> length (render 0 r e ++ stop) < fuel ->
     fmt_expr md fuel d (render 0 r e ++ stop) = Some (render 0 no_parens (norm print_ok e), stop).
 Proof.
-  intros md e r stop d fuel Hp Hr Hq Hfo Hdep Hlen. unfold fmt_expr.
-  rewrite (parse_render_expr_partial md e r stop d fuel Hp Hr Hfo Hdep Hlen).
-  rewrite (print_is_render e Hp Hr Hq). reflexivity.
+  intros md e r stop d fuel Hr Hq Hfo Hdep Hlen. unfold fmt_expr.
+  rewrite (parse_render_expr_ext md e r stop d fuel Hr Hfo Hdep Hlen).
+  rewrite (print_is_render e Hr Hq). reflexivity.
 Qed.
 
 (* ... and formatting the formatted output returns it unchanged *)
 Theorem fmt_idempotent : forall md e (r : rho) stop d fuel out rest,
-    proved e = true -> ref_expr e = true -> printable print_ok e = true -> follow_ok stop ->
+    ref_expr e = true -> printable print_ok e = true -> follow_ok stop ->
     d + 1 + pdepth 0 r e <= md -> length (render 0 r e ++ stop) < fuel ->
     d + 1 + pdepth 0 no_parens (norm print_ok e) <= md ->
     fmt_expr md fuel d (render 0 r e ++ stop) = Some (out, rest) ->
     length (out ++ stop) < fuel ->
     fmt_expr md fuel d (out ++ rest) = Some (out, rest).
 Proof.
-  intros md e r stop d fuel out rest Hp Hr Hq Hfo Hdep Hlen Hdep2 Hf Hlen2.
-  rewrite (fmt_canonical md e r stop d fuel Hp Hr Hq Hfo Hdep Hlen) in Hf. inversion Hf; subst out rest. clear Hf.
+  intros md e r stop d fuel out rest Hr Hq Hfo Hdep Hlen Hdep2 Hf Hlen2.
+  rewrite (fmt_canonical md e r stop d fuel Hr Hq Hfo Hdep Hlen) in Hf. inversion Hf; subst out rest. clear Hf.
   unfold fmt_expr.
-  destruct (print_parse_expr md e stop d fuel Hp Hr Hq Hfo Hdep2) as (ts & Hts & Hparse).
-  rewrite (print_is_render e Hp Hr Hq) in Hts. inversion Hts; subst ts.
-  rewrite (Hparse Hlen2). rewrite (print_is_render e Hp Hr Hq). reflexivity.
+  destruct (print_parse_expr md e stop d fuel Hr Hq Hfo Hdep2) as (ts & Hts & Hparse).
+  rewrite (print_is_render e Hr Hq) in Hts. inversion Hts; subst ts.
+  rewrite (Hparse Hlen2). rewrite (print_is_render e Hr Hq). reflexivity.
 Qed.
 
 (* ------------------------------------------------------------------------------------------------ *)
@@ -503,7 +674,7 @@ Qed.
 
 Definition eof_stop : list token := [Tk TyEOF ""].
 Definition rt_fails (pf : pflags) (e : mexpr) : Prop :=
-  proved e = true /\ ref_expr e = true /\ printable print_ok e = true /\
+  ref_expr e = true /\ printable print_ok e = true /\
   exists ts, print_expr pf (ast_of e) = Some ts /\ parse_expr_top no_defects 0 (ts ++ eof_stop) <> Val (ast_of e, eof_stop).
 
 Definition w_parens : mexpr := MBin BAnd (MBin BOr (MIdent false "a") (MIdent false "b")) (MIdent false "c").
@@ -518,14 +689,14 @@ Theorem refuted_is_not_null_lost : rt_fails (PFlags false true false false false
 Theorem refuted_reserved_raw : rt_fails (PFlags false false true false false) w_reserved. Proof. refute. Qed.
 (* the unrepaired one: with '.' as a safe character the quoted identifier a.b is written raw and read as table a, column b *)
 Theorem refuted_dot_safe :
-  proved w_dotted = true /\ ref_expr w_dotted = true /\
+  ref_expr w_dotted = true /\
   exists ts, print_expr print_tree (ast_of w_dotted) = Some ts /\ parse_expr_top no_defects 0 (ts ++ eof_stop) <> Val (ast_of w_dotted, eof_stop).
 Proof. repeat split; try reflexivity. eexists; split; [vm_compute; reflexivity|vm_compute; discriminate]. Qed.
 
 (* the other unrepaired one: a quoted identifier that begins with a digit is written raw and read as a number *)
 Definition w_digit : mexpr := MIdent true "1".
 Theorem refuted_digit_safe :
-  proved w_digit = true /\ ref_expr w_digit = true /\
+  ref_expr w_digit = true /\
   exists ts, print_expr print_tree (ast_of w_digit) = Some ts /\ parse_expr_top no_defects 0 (ts ++ eof_stop) <> Val (ast_of w_digit, eof_stop).
 Proof. repeat split; try reflexivity. eexists; split; [vm_compute; reflexivity|vm_compute; discriminate]. Qed.
 
